@@ -63,6 +63,36 @@ theorem table_from_pool (h : String → Nat → Nat) (peers : List Peer) :
   intro x hx
   exact (mem_initTable peers x).mp (hp.mem_iff.mp hx)
 
+/-- Liveness gap of the coded rule (not part of the property's safety statement, recorded because the check measured
+    it): whenever the position table has at most 3C different members (C >= 1) and N > 2C, no participant
+    configuration exists for any seed — after excluding C proposers only 2C peers remain while the endorser loop
+    stops only with more than 2C (or N) members. -/
+theorem no_configuration_with_3C_members (blkNum : Nat) (vrf : Seed) (table : List Nat) (N C : Nat) (hC : 1 ≤ C)
+    (hN : 2 * C < N) (hd : ∀ S : List Nat, S.Nodup → (∀ x ∈ S, x ∈ table) → S.length ≤ 3 * C)
+    (cfg : ParticipantConfig) : buildParticipantConfig blkNum vrf table N C ≠ .ok cfg :=
+  no_config_with_3C_members blkNum vrf table N C hC hN hd cfg
+
+/-- In particular the chain configuration GenesisChainConfig produces (N = k, C = k/3) for a pool of k = 3c peers,
+    c >= 1, admits no participant configuration, whatever the seed, the height and the shuffle hash. -/
+theorem genesis_config_of_3c_peers_cannot_build (h : String → Nat → Nat) (peers : List Peer) (c : Nat) (hc : 1 ≤ c)
+    (hk : peers.length = 3 * c) (blkNum : Nat) (vrf : Seed) (cfg : ParticipantConfig) :
+    buildParticipantConfig blkNum vrf (genesisChainConfig h peers).posTable (genesisChainConfig h peers).N
+      (genesisChainConfig h peers).C ≠ .ok cfg :=
+  genesis_3c_cannot_build h peers c hc hk blkNum vrf cfg
+
+/-- GetPeersConfig hands the pool over in Go-map order. For two orders of the same pool the generated tables are
+    rearrangements of each other (same entries, same multiplicities) and N, C agree; the tables themselves can
+    differ (example below), so the table is a function of the pool only up to rearrangement. -/
+theorem table_order_dependence_is_a_rearrangement (h : String → Nat → Nat) (p₁ p₂ : List Peer) (hp : p₁.Perm p₂) :
+    (genesisChainConfig h p₁).posTable.Perm (genesisChainConfig h p₂).posTable ∧
+      (genesisChainConfig h p₁).N = (genesisChainConfig h p₂).N ∧
+      (genesisChainConfig h p₁).C = (genesisChainConfig h p₂).C :=
+  genesis_order_perm h p₁ p₂ hp
+
+/-- two orders of a two-peer pool, same shuffle hash: different tables -/
+example : (genesisChainConfig (fun _ i => i / 2) [⟨1, "a"⟩, ⟨2, "b"⟩]).posTable ≠
+    (genesisChainConfig (fun _ i => i / 2) [⟨2, "b"⟩, ⟨1, "a"⟩]).posTable := by decide
+
 /-! ## Non-vacuity (tests by evaluation) -/
 
 private def seedA : Seed := Vector.ofFn fun i => (i.val * 37 + 11).toUInt8
